@@ -73,6 +73,33 @@ CLAIMS['C08'] = dict(
          '(effectful comprehension), TaskPool.merge_flows / spawn_on_output flow propagation and the '
          '"finished and complete in a flow is not re-run" clause (spawn_task) - not covered by this check.')
 
+CLAIMS['C09'] = dict(
+    category='proof',
+    text='Second and third-sentence mechanisms proved per call: TaskOutputs.set_message_complete is monotone '
+         '(no completed output is un-completed, only the given message changes, tri-state result), '
+         'TaskOutputs.add/is_message_complete, and a census showing _completed is written only by __init__, '
+         'add and set_message_complete. TaskState.reset / TaskProxy.state_reset / TaskState.__call__ are '
+         'proved functionally: forced resets never yield submitted/running, requested values are taken, '
+         'unrequested kept, the result says whether anything changed, expired clears the queued and '
+         'runahead flags. All states, no bound.',
+    note=_PROOF_NOTE + 'NOT covered (needs message histories, see DESIGN 5 C09): that status only moves along '
+         'the lifecycle (the transitions in process_message / prep_submit_task_jobs carry no local guard), and '
+         'the implied-outputs clause (succeeded/failed imply submitted and started) which lives in '
+         'process_message; those functions are not under contract.')
+
+CLAIMS['C11'] = dict(
+    category='proof',
+    text='TaskPool.remove_if_complete is proved against its body (for an arbitrary pool, task and both values of '
+         'the Cylc 7 compatibility flag): a task is removed exactly when it is finished and is_complete() holds, '
+         'otherwise the pool is untouched; the stop-task flag is set. The second sentence (what the generated '
+         'completion expression means) is a BOUNDED stand-in, not a proof: get_completion_expression is '
+         'compared with the specification through the real evaluator for every optionality assignment of the '
+         'six standard outputs plus one (quick) or two (thorough) custom outputs and every completed-subset.',
+    note=_PROOF_NOTE + 'Assumed: TaskOutputs.is_complete returns the truth value of the stored expression over '
+         'the completed outputs (CompletionEvaluator; safety half is C24); TaskPool.remove under its C26 contract. '
+         'The bounded stand-in is listed in coverage.bounded_standins_not_proofs and is not counted in '
+         'obligations/discharged.')
+
 NOT_APPLICABLE = {
     'C01': 'equality between the set of instances submitted over a whole run and the spawn-on-demand closure, for '
            'every schedule: a whole-history property; no postcondition of one call states it. Its per-call '
